@@ -149,3 +149,21 @@ Theorem same_frame_means : forall l l', same_frame l l' <->
              option_map (fun t => (tr_tid t, tr_index t, tr_max t)) (alookup k l)).
 Proof. intros. reflexivity. Qed.
 Print Assumptions same_frame_means.
+
+(** T-ro with @ (proofs/ReadOnlyAt.v): the fragment extended by relative evaluation e@k at any nesting leaves the
+    interpreter state exactly as it was, with any number of traces, on states without virtual signals whose
+    container is well-formed (every reachable state is, C12).  Hence (find c) is pointwise for conditions using @. *)
+From WalModel.proofs Require ContInv ReadOnlyAt.
+Theorem read_only_fragment_with_offsets_leaves_the_state : forall lf f e, ReadOnlyAt.is_roa e = true ->
+  forall st v st', ReadOnly.novirt st /\ ContInv.cwf (st_cont st) -> eval lf f e st = Ok v st' -> st' = st.
+Proof. intros lf f e H st v st' Hok E. exact (ReadOnlyAt.roa_pure lf f e H st v st' Hok E). Qed.
+Print Assumptions read_only_fragment_with_offsets_leaves_the_state.
+
+Theorem find_over_a_condition_with_offsets : forall lf f tid c st0 t0,
+  tr_tid t0 = tid -> tr_virt t0 = [] -> c_ntraces (st_cont st0) = 1 -> ReadOnlyAt.is_roa c = true ->
+  (forall j, 0 <= j <= tr_max t0 -> exists v st', eval lf f c (at_idx tid st0 t0 j) = Ok v st') ->
+  forall fuel i, 0 <= i <= tr_max t0 -> (Z.to_nat (tr_max t0 - i) < fuel)%nat ->
+  op_find fuel (eval lf f) [c] (at_idx tid st0 t0 i) =
+  Ok (PL (map VInt (filter (truth_at (eval lf f) tid c st0 t0) (zrange_nat i (S (Z.to_nat (tr_max t0 - i))))))) (at_idx tid st0 t0 i).
+Proof. exact ReadOnlyAt.find_pointwise_roa. Qed.
+Print Assumptions find_over_a_condition_with_offsets.
